@@ -13,10 +13,14 @@ import (
 	"os"
 	"os/exec"
 	"strings"
+	"sync"
 	"testing"
 	"time"
 
+	"github.com/jsimonetti/rtnetlink"
 	"github.com/mdlayher/corerad/internal/verifh"
+	"github.com/mdlayher/netlink"
+	"golang.org/x/sys/unix"
 )
 
 func c19Sh(arg ...string) error {
@@ -59,7 +63,46 @@ func TestVerifC19RealOS(t *testing.T) {
 	_ = c19Sh("link", "set", "up", nb)
 	time.Sleep(300 * time.Millisecond)
 
+	// the oracle: an independent rtnetlink socket in the same multicast group, opened before Watch's and read until
+	// after it; every link message about the interface, in kernel order, through the operstate table alone
+	var (
+		omu    sync.Mutex
+		oracle []Change
+		all    []Change
+	)
+	oc, oerr := rtnetlink.Dial(&netlink.Config{Groups: unix.RTMGRP_LINK})
+	if oerr != nil {
+		unavailable("oracle socket: " + oerr.Error())
+		return
+	}
+	defer oc.Close()
+	go func() {
+		for {
+			msgs, _, err := oc.Receive()
+			if err != nil {
+				return
+			}
+			for _, m := range msgs {
+				if lm, ok := m.(*rtnetlink.LinkMessage); ok && lm.Attributes != nil && lm.Attributes.Name == na {
+					if c, ok := operStateChange(lm.Attributes.OperationalState); ok {
+						omu.Lock()
+						oracle = append(oracle, c)
+						omu.Unlock()
+					}
+				}
+			}
+		}
+	}()
+
 	w := NewWatcher()
+	allC := w.Subscribe(na, LinkAny) // drained at once, never full
+	go func() {
+		for v := range allC {
+			omu.Lock()
+			all = append(all, v)
+			omu.Unlock()
+		}
+	}()
 	downC := w.Subscribe(na, LinkDown)
 	anyC := w.Subscribe(na, LinkAny)
 	otherC := w.Subscribe("verif-nobody0", LinkAny)
@@ -75,6 +118,9 @@ func TestVerifC19RealOS(t *testing.T) {
 	default:
 	}
 
+	omu.Lock()
+	baseO, baseA := len(oracle), len(all)
+	omu.Unlock()
 	var viol []string
 	waitFor := func(c <-chan Change, want Change, d time.Duration) (bool, []Change) {
 		var seen []Change
@@ -125,6 +171,18 @@ func TestVerifC19RealOS(t *testing.T) {
 	case v, ok := <-otherC:
 		viol = append(viol, fmt.Sprintf("the subscriber of another interface received %v (open=%v)", v, ok))
 	default:
+	}
+
+	// the interface is removed while it is watched; then everything the kernel said about it, and nothing else, has
+	// reached the subscriber, each message as the state the kernel reported in it
+	_ = c19Sh("link", "del", na)
+	time.Sleep(700 * time.Millisecond)
+	omu.Lock()
+	wantSeq, gotSeq := fmt.Sprint(oracle[baseO:]), fmt.Sprint(all[baseA:])
+	omu.Unlock()
+	obs["kernel_said"], obs["subscriber_got"] = wantSeq, gotSeq
+	if wantSeq != gotSeq {
+		viol = append(viol, fmt.Sprintf("link messages about %s (down, up, removal) carried the states %s; a LinkAny subscriber that kept up received %s", na, wantSeq, gotSeq))
 	}
 
 	cancel()
